@@ -213,6 +213,7 @@ func AccessC(site, v, kind int, p any) {
 	s.yield(site, 1)
 	k := cellKey{v: v, sub: ptrOf(p)}
 	if kind&2 != 0 {
+		t.touch(globalSyncToken{})
 		t.acquire(s.globalSync)
 		if kind&1 == Write {
 			s.write(t, k, false, t.vc[t.ID], site)
